@@ -82,6 +82,7 @@ ROUTE_FILES = ["route/parse.go", "route/oracle.go", "route/c01.go"]
 SEG_MENU = [
     ("a", "s"), ("b", "s"), ("{x%d}", "p"), ("{y%d}", "p"), ("{r%d: /a+/}", "r"), ("{d%d: /[0-9]+/}", "r"),
     ("v{w%d}", "r"), ("{p%d: /a|ab/}{q%d: /b*/}", "r"), ("{m%d: **}", "m"), ("{m%d: **, capture: 2}", "m"), ("{**}", "m"),
+    ("a.b", "s"), ("{e%d: /[0-9]+/}.j", "r"), ("{f%d: /x/, g%d: /y+/}", "r"),
 ]
 
 
@@ -234,7 +235,7 @@ def routing_jobs(pid, tier, seed):
         else:
             add(rs, n, "curated")
     menu = SEG_MENU
-    ndraw = {"quick": 20, "thorough": 90}[tier]
+    ndraw = {"quick": 20, "thorough": 50}[tier]
     drawn = 0
     guard = 0
     while drawn < ndraw and guard < 10000:
@@ -366,8 +367,29 @@ C09_PROGS = [
 ]
 
 
+def random_program(rng, menu, headers=True, max_routes=3):
+    """A registration program over a random valid route set: random method sets per route, Headers() calls, NotFound."""
+    rs = random_route_set(rng, menu, max_routes=max_routes)
+    if not rs:
+        return None
+    prog = ["R %s %s" % (rng.choice(["GET", "GET", "POST", "*", "GET,POST"]), t) for t in rs]
+    if headers:
+        for _ in range(rng.randint(1, 2)):
+            prog.append("H %d %s" % (rng.randrange(len(rs)), rng.choice(["X-K=v", "X-K=^v$", "X-K=a|b", "Y-K=w", "X-K=v;Y-K=w", ""])))
+    if rng.random() < 0.3:
+        prog.insert(rng.randrange(len(prog) + 1) if not headers else 0, "NF")
+    return prog
+
+
 def c09_jobs(tier, seed):
     jobs = []
+    rng = random.Random(seed * 577 + 9)
+    drawn = 0
+    while drawn < (8 if tier == "quick" else 40):
+        prog = random_program(rng, SEG_MENU)
+        if prog:
+            drawn += 1
+            jobs.append(router_job(prog, 3 if tier == "quick" else 5, method="?" if drawn % 2 else "GET", hv=1 if tier == "quick" else 2, tag="c09-seeded"))
     for prog, method, n, *rest in C09_PROGS:
         jobs.append(router_job(prog, n + (0 if tier == "quick" else 2), method=method, hv=2 if tier == "quick" else 3, diff=0,
                                tag="c09", prefix=rest[0] if rest else ""))
@@ -411,13 +433,14 @@ def c10_jobs(tier, seed):
     jobs = []
     for prog, method, n in C10_PROGS:
         jobs.append(router_job(prog, n + (0 if tier == "quick" else 2), method=method, hv=1, diff=1, tag="c10"))
-    if tier == "thorough":
-        rng = random.Random(seed * 131 + 3)
-        menu = [("a", "s"), ("b", "s"), ("q", "s"), ("{x%d}", "p"), ("{m%d: **}", "m")]
-        for _ in range(40):
-            rs = random_route_set(rng, menu)
-            if rs:
-                jobs.append(router_job(["R GET " + t for t in rs], 6, method="GET", diff=1, tag="c10-seeded"))
+    rng = random.Random(seed * 131 + 3)
+    menu = [("a", "s"), ("b", "s"), ("q", "s"), ("a", "s"), ("{x%d}", "p"), ("{m%d: **}", "m"), ("", "s")]
+    drawn = 0
+    while drawn < (10 if tier == "quick" else 60):
+        prog = random_program(rng, menu, headers=drawn % 3 == 0, max_routes=4)
+        if prog:
+            drawn += 1
+            jobs.append(router_job(prog, 4 if tier == "quick" else 6, method="?" if drawn % 2 else "GET", hv=1, diff=1, tag="c10-seeded"))
     return jobs
 
 
@@ -658,6 +681,8 @@ C08_CURATED = [
     # expressions that do not compile on their own but repair each other once assembled into one pattern
     ["/{N0: /[x/}{N1: /y]/}"], ["/{N0: /[x/, N1: /y]/}"], ["/{N0: /x)/}-{N1: /(y/}"],
     ["/N0/{N1: /[x/}{N2}{N3: /y]/}", "/N0"],
+    # the short form of a root-level optional route is "/"
+    ["/?{N0: /x+/}", "/"], ["/", "/?"], ["/", "/?N0"], ["/?{N0: **}", "/", "/N1"], ["/{N1: **}/N1", "/?{N2: /x+/}", "/"],
 ]
 
 
